@@ -87,6 +87,7 @@ class Case:
                     N=self.N, iterations=self.iterations,
                     dtype=str(self.y.dtype) if self.y is not None else None,
                     init=self.meta.get('init'), data=self.meta.get('data'),
+                    layout=self.meta.get('layout'),
                     scale_exp=self.meta.get('scale_exp'), opts=o,
                     trainer=self.trainer_kwargs or None)
 
@@ -297,6 +298,21 @@ def real_kind(kind):
     return kind in ('gmm', 'vmfmm')
 
 
+def relayout(a, layout):
+    """the same array values behind another memory layout"""
+    if layout == 'transposed-view' and a.ndim >= 2:
+        # as users obtain it from an (F, D, T) STFT tensor: Y.transpose(0, 2, 1)
+        return np.ascontiguousarray(np.swapaxes(a, -1, -2)).swapaxes(-1, -2)
+    if layout == 'fortran':
+        return np.asfortranarray(a)
+    if layout == 'strided':
+        big = np.zeros((*a.shape[:-1], 2 * a.shape[-1]), dtype=a.dtype)
+        view = big[..., ::2]
+        view[...] = a
+        return view
+    return a
+
+
 def cluster_data(rng, lead, K, N, D, complex_, spread):
     """K clusters per slice so that EM has structure; returns data and
     labels.  spread: relative within-cluster perturbation."""
@@ -446,7 +462,11 @@ def draw_case(d, kinds=None, *, degenerate=False, general_position=False,
         case.N = d.int(min(2 * case.D + 2, max_N), max(max_N, 2 * case.D + 2))
     else:
         case.N = d.int(1, max_N)
-    rng = d.rng()
+    seed = d.seed()
+    rng = np.random.default_rng(seed)
+    # decisions added later draw from a second stream derived from the same
+    # recorded seed, so that committed replays keep their meaning
+    aux = np.random.default_rng([seed, 777])
     lead_, K, N, D = case.lead, case.K, case.N, case.D
 
     # ---- data
@@ -481,7 +501,10 @@ def draw_case(d, kinds=None, *, degenerate=False, general_position=False,
         case.meta.update(data=pattern, scale_exp=0)
         if single:
             y = y.astype(np.complex64)
-    case.y = y
+    # memory layout of the observation: same values, other strides
+    layout = ['c', 'c', 'c', 'transposed-view', 'fortran', 'strided'][int(aux.integers(0, 6))]
+    case.y = relayout(y, layout)
+    case.meta['layout'] = layout
     case.labels = labels
     if integ:
         e, _ = cluster_data(rng, lead_, K, N, case.E, False, spread)
@@ -490,7 +513,7 @@ def draw_case(d, kinds=None, *, degenerate=False, general_position=False,
         e = protos[labels] + spread * rng.normal(size=(*lead_, N, case.E))
         if degenerate and pattern in ('all-zero',):
             pass
-        case.emb = e
+        case.emb = relayout(e, ['c', 'c', 'transposed-view', 'strided'][int(aux.integers(0, 4))])
     case.meta.update(data=pattern, scale_exp=scale_exp, single=single,
                      spread=spread, N_lt_D=N < D)
 
@@ -773,6 +796,21 @@ def ill_conditioned(model, case):
         lam = np.asarray(model.complex_bingham.covariance_eigenvalues)
         if np.any(lam < -1e6):
             return True
+    if kind in ('gmm', 'gcacgmm'):
+        # a collapsing Gaussian component (covariance singular up to rounding)
+        cov = np.asarray(model.gaussian.covariance, dtype=np.float64)
+        ct = case.opts.get('covariance_type', 'full' if kind == 'gmm' else 'spherical')
+        if not np.all(np.isfinite(cov)):
+            return True
+        if ct == 'full':
+            ev = np.linalg.eigvalsh((cov + np.swapaxes(cov, -1, -2)) / 2)
+            if np.any(ev[..., 0] <= 1e-10 * np.abs(ev[..., -1])):
+                return True
+        else:
+            scale = np.max(np.abs(cov), axis=-1, keepdims=True) if ct == 'diagonal' \
+                else np.max(np.abs(cov))
+            if np.any(cov <= 1e-10 * scale) or np.any(cov <= 0):
+                return True
     w = np.asarray(model.weight)
     if np.any(w < 1e-12):
         return True
